@@ -40,8 +40,8 @@ static KSI_CTX *ctx;
 static const char B32[] = "ABCDEFGHIJKLMNOPQRSTUVWXYZ234567";
 static const int ALGS[] = {RH_SHA1, RH_SHA256, RH_RIPEMD160, RH_SHA384, RH_SHA512, RH_SHA3_224, RH_SHA3_256, RH_SHA3_384, RH_SHA3_512, RH_SM3};
 #define NALG ((int)(sizeof ALGS / sizeof *ALGS))
-static const uint64_t T_SPECIAL[] = {0, 1, 0x7fffffffULL, 0xffffffffULL, 0x100000000ULL, 0x8000000000000000ULL, 0xffffffffffffffffULL};
-#define NSPECIAL 7
+static const uint64_t T_SPECIAL[] = {0, 1, 0x7fffffffULL, 0xffffffffULL, 0x100000000ULL, 0x8000000000000000ULL, 0xffffffffffffffffULL, 0x80000000ULL, 0x123456789abcdef0ULL, 0x7fffffffffffffffULL, 0x0000008000000000ULL, 0x00ff00ff00ff00ffULL};
+#define NSPECIAL 12
 #define NTIMES (NSPECIAL + 254)   /* the specials, then 2..255 (0 and 1 are among the specials) */
 static uint64_t time_of(int ti) { return ti < NSPECIAL ? T_SPECIAL[ti] : (uint64_t)(ti - NSPECIAL + 2); }
 static const char *DP_NAME[] = {"zero", "ones", "ctr"};
